@@ -121,6 +121,11 @@ func (g *cg) handler(depth int) gen.Val {
 		return gen.L(append([]gen.Val{gen.S("lambda"), gen.L(gen.S("c"))}, g.probeOf(gen.S("c")))...)
 	case 3:
 		return gen.S("list") // a builtin as handler
+	case 4:
+		// a host (Go) builtin directly in handler position that panics
+		g.stats["host-panic"]++
+		g.stats["go-handler-panics"]++
+		return gen.S("host-panic-handler")
 	default:
 		return gen.L(append([]gen.Val{gen.S("lambda"), gen.L(gen.S("c"), gen.S("&rest"), gen.S("d"))}, g.handlerBody(depth)...)...)
 	}
